@@ -66,13 +66,13 @@ const (
 )
 
 type TPart struct {
-	K      TK
-	S      string // TLit
-	E      *Node  // interpolated expression / if condition / for collection
-	KeyVar string // TFor (optional)
-	ValVar string // TFor
-	Then   []*TPart // TIf then-branch / TFor body
-	Else   []*TPart
+	K       TK
+	S       string   // TLit
+	E       *Node    // interpolated expression / if condition / for collection
+	KeyVar  string   // TFor (optional)
+	ValVar  string   // TFor
+	Then    []*TPart // TIf then-branch / TFor body
+	Else    []*TPart
 	HasElse bool
 	// strip markers: [0] left (~ directly after the opening brace), [1] right
 	Open  [2]bool // ${ } or %{if}/%{for}
@@ -317,14 +317,14 @@ func nNum(text string) *Node {
 	}
 	return &Node{K: NNum, Text: text, Num: r}
 }
-func nStr(s string) *Node  { return &Node{K: NStr, S: s} }
-func nBool(b bool) *Node   { return &Node{K: NBool, B: b} }
-func nNull() *Node         { return &Node{K: NNull} }
-func nVar(name string) *Node { return &Node{K: NVar, S: name} }
-func nBin(op string, a, b *Node) *Node { return &Node{K: NBinary, Op: op, A: []*Node{a, b}} }
-func nUn(op string, a *Node) *Node     { return &Node{K: NUnary, Op: op, A: []*Node{a}} }
-func nCond(c, a, b *Node) *Node        { return &Node{K: NCond, A: []*Node{c, a, b}} }
+func nStr(s string) *Node                    { return &Node{K: NStr, S: s} }
+func nBool(b bool) *Node                     { return &Node{K: NBool, B: b} }
+func nNull() *Node                           { return &Node{K: NNull} }
+func nVar(name string) *Node                 { return &Node{K: NVar, S: name} }
+func nBin(op string, a, b *Node) *Node       { return &Node{K: NBinary, Op: op, A: []*Node{a, b}} }
+func nUn(op string, a *Node) *Node           { return &Node{K: NUnary, Op: op, A: []*Node{a}} }
+func nCond(c, a, b *Node) *Node              { return &Node{K: NCond, A: []*Node{c, a, b}} }
 func nCall(name string, args ...*Node) *Node { return &Node{K: NCall, S: name, A: args} }
-func nIndex(x, k *Node) *Node          { return &Node{K: NIndex, A: []*Node{x, k}} }
-func nAttr(x *Node, name string) *Node { return &Node{K: NAttr, S: name, A: []*Node{x}} }
-func nTuple(items ...*Node) *Node      { return &Node{K: NTuple, A: items} }
+func nIndex(x, k *Node) *Node                { return &Node{K: NIndex, A: []*Node{x, k}} }
+func nAttr(x *Node, name string) *Node       { return &Node{K: NAttr, S: name, A: []*Node{x}} }
+func nTuple(items ...*Node) *Node            { return &Node{K: NTuple, A: items} }
